@@ -139,7 +139,7 @@ def corpus(test_strings, seed, n_random=120):
 def run_gate(ast, replay, test_strings, seed=0, n_random=120, hash_order='insertion'):
     """returns dict(ok, checked, first_mismatch)"""
     m = Machine(ast, hash_order=hash_order)
-    checked = 0; order_dependent = 0
+    checked = 0; order_dependent = 0; approx_skipped = 0
     for docs in corpus(test_strings, seed, n_random):
         native = replay.ask({'op': 'render', 'docs': docs, 'options': OPTION_SETS})
         scripts = []
@@ -147,14 +147,18 @@ def run_gate(ast, replay, test_strings, seed=0, n_random=120, hash_order='insert
             evs = replay.ask({'op': 'events', 'doc': d})
             scripts.append(X.script_from_native_events(evs['events']))
         # native stops at the first error; give rsym the same number of documents it got to
+        a0 = m.approx
         mine = rsym_render(m, scripts, OPTION_SETS)
+        if m.approx != a0:
+            approx_skipped += 1; continue          # an approximate library model (e.g. from_utf8_lossy on invalid bytes) was reached: not comparable byte for byte
         diff = compare(native, mine)
-        if diff is not None and 'error' not in mine and 'alternatives' not in mine and diff.startswith('rendered output differs'):
+        if diff is not None and 'error' not in mine and 'alternatives' not in mine and (diff.startswith('rendered output differs') or diff.startswith('tree differs')):
             # F2-style dependence of the *native* output on HashMap iteration order is C05's subject, not an encoder fault:
             # if repeated native runs (fresh hash seeds per HashMap instance) disagree among themselves, the document is skipped here
             outs = set()
             for _ in range(8):
-                outs.add(json.dumps(replay.ask({'op': 'render', 'docs': docs, 'options': OPTION_SETS}).get('outputs')))
+                rr = replay.ask({'op': 'render', 'docs': docs, 'options': OPTION_SETS})
+                outs.add(json.dumps([rr.get('outputs'), rr.get('trees')]))
             if len(outs) > 1:
                 diff = None; order_dependent += 1
         if diff is not None:
